@@ -342,7 +342,7 @@ class Check:
         self.assumptions = []
         self.level = "proof"
         self._distinct = set()
-        self.known = [k for k in load_known()["findings"] if k["property"] == prop]
+        self.known = [k for k in load_known()["findings"] if k["property"] == prop or prop in k.get("also", [])]
         self.replay_n = 0
 
     # --- logging
@@ -377,6 +377,11 @@ class Check:
         if os.path.exists(os.path.join(COQ, "Corr", f"{self.prop}.v")):
             targets.append(f"Corr/{self.prop}.vo")
         targets += extra_targets or []
+        try:
+            import regen
+            regen.regenerate_for(self.prop)
+        except Exception as e:
+            return f"regeneration of the source-derived Coq files failed (translator is fail-closed): {e!r}"
         try:
             ok, log = coq_make(targets)
         except (CoqError, subprocess.TimeoutExpired) as e:
